@@ -76,6 +76,19 @@ def make(kind, seed):
     return mici.samplers.DynamicMultinomialHMC(system, integrator, rng, max_tree_depth=2)
 
 
+def make_count(kind, seed, init, n_warm, n_main, kw):
+    """number of callback calls one chain makes in an uninterrupted sequential run of the same configuration"""
+    global _R
+    _R = Raiser(None)
+    s = make(kind, seed)
+    metric0 = s.system.metric
+    try:
+        s.sample_chains(n_warm, n_main, [init.copy()], **dict(kw, n_process=1))
+    finally:
+        s.system.metric = metric0
+    return _R.n
+
+
 def real_interrupt_search(ctx):
     import mici
     global _R
@@ -107,7 +120,13 @@ def real_interrupt_search(ctx):
                 s.system.metric = metric0
         full, total_calls = run(None)
         fulltr = [np.asarray(a).copy() for a in full.traces["pos"]]
-        ks = list(range(0, total_calls, max(1, total_calls // (25 if not ctx.thorough else 120)))) if n_process == 1 else [3, 17, 40]
+        if n_process == 1:
+            ks = list(range(0, total_calls, max(1, total_calls // (25 if not ctx.thorough else 120))))
+        else:
+            # callbacks run in the workers (each with its own copy of the counter): sweep every call index of a chain for the multi-stage configuration
+            # (this includes the last iteration of every non-final stage), a few for the others
+            per_chain = make_count(kind, seed, inits[0], n_warm, n_main, kw)
+            ks = list(range(0, per_chain + 1)) if (n_warm or ctx.thorough) else [3, 17, 40]
         for k in ks:
             with tempfile.TemporaryDirectory(dir="/verif/build") as td:
                 try:
@@ -135,6 +154,9 @@ def real_interrupt_search(ctx):
                         # parallel: chains run concurrently; every written row must still equal the uninterrupted row
                         if not np.array_equal(tr[written], fulltr[c][written]) and n_warm == 0:
                             probs.append(f"chain {c}: written rows differ from the uninterrupted run")
+                        # ... and per chain the written rows are a prefix: nothing of a later stage is written after an iteration that was cut short
+                        if not np.all(written[:nw]):
+                            probs.append(f"chain {c}: rows {np.nonzero(written)[0].tolist()} are written but row {int(np.argmin(written))} is not: sampling went on after the interrupt")
                     if memmap:
                         files = sorted(Path(td).glob("trace_*pos*.npy"))
                         if len(files) == n_chain and not np.array_equal(np.load(files[c]), tr, equal_nan=True):
